@@ -196,7 +196,8 @@ func Append(err error, errs ...error) *Error {
 			if len(errs) == 0 {
 				return nil
 			}
-			return Append(errs[0], errs[1:]...)
+			// Start from a nil accumulator rather than adopting errs[0]: an adopted *Error argument would be modified
+			return Append((*Error)(nil), errs...)
 		}
 		return Append(WrapTyped(e), errs...)
 	}
